@@ -2149,6 +2149,7 @@ def _spec_uf(self, fn, args, kwargs):
         f = z3.Function(name, *(sorts + [vals.VS]))
         app = f(*allargs)
         res = T(app)
+        self.axiom(app != Val.VAbsent)      # a specification function denotes a python value
     # the definitional equation is recorded guarded by the scope it was
     # evaluated in, so it is re-derived when the same application occurs under
     # different scope conditions
